@@ -10,7 +10,8 @@
    reverse-expansion contract; they are not proved but CHECKED on the real candidate stream of
    reverseexpand.ReverseExpandQuery.Execute against Sem on every run (translation validation).
    lo_sound_needs_contract_refuted: without nofurther_sound the layer passes a non-permitted
-   object through — this is how finding F7 (sqlite ReadStartingWithUser leak) reaches the result. *)
+   object through (the hypothesis is necessary; this is how a read leak of a backend — the former
+   finding F7 on sqlite, repaired by a279b76 — reached the result). *)
 From Coq Require Import List Bool Arith Permutation.
 From OFGA Require Import Query.ListObjects Query.ListObjectsProofs.
 Import ListNotations.
@@ -221,10 +222,12 @@ Proof. rewrite evaluate_length. reflexivity. Qed.
 (* ---- the contract is necessary.  Full-strength statement (no hypothesis on the candidates):
         forall P check cands limit arrival o, (forall o, check o = P o) ->
           In o (evaluate cands check limit arrival) -> P o = true
-   is refuted: a NoFurtherEval candidate that is not permitted is returned unchecked.  This is
-   the shape of F7: on sqlite, reverse expansion for the subject group:1 emits doc:2 (related
-   only to group:1#member) with NoFurtherEval.  lo_sound above is the _partial version, its
-   boolean hypothesis nofurther_sound excludes exactly this trigger. ---- *)
+   is refuted: a NoFurtherEval candidate that is not permitted is returned unchecked.  This was
+   the shape of the former finding F7 (before a279b76 sqlite's ReadStartingWithUser made reverse
+   expansion for the subject group:1 emit doc:2, related only to group:1#member, with
+   NoFurtherEval); the statement is about the layer's hypothesis, not about the current code:
+   lo_sound above is the _partial version, its boolean hypothesis nofurther_sound excludes exactly
+   this trigger, and the driver checks the hypothesis on every recorded stream. ---- *)
 Theorem lo_sound_needs_contract_refuted :
   exists (P check : nat -> bool) (cands : list (cand nat)) (limit : nat) (arrival : list nat) (o : nat),
     (forall o, check o = P o) /\
